@@ -330,6 +330,28 @@ func runC12(c *Ctx) {
 					}
 				}
 			}
+			if isMs && !copied && render(ms.Len) == "len($0)" {
+				// the same copy written as an element loop over the whole source: nbs[i] = bs[i]
+				for _, b := range f.Blocks {
+					for _, in := range b.Instrs {
+						es, ok := in.(*ssa.Store)
+						if !ok {
+							continue
+						}
+						dst, ok := es.Addr.(*ssa.IndexAddr)
+						if !ok || dst.X != ssa.Value(ms) {
+							continue
+						}
+						if ld, ok := es.Val.(*ssa.UnOp); ok {
+							if src, ok := ld.X.(*ssa.IndexAddr); ok && render(src.X) == "$0" && src.Index == dst.Index {
+								if li, lb, isLoop := indexLoop(loopHeaderOf(b)); isLoop && li == dst.Index && render(lb) == "len($0)" {
+									copied = true
+								}
+							}
+						}
+					}
+				}
+			}
 			c.check(copied, "C12.binary-form", "SetBytes stores a private copy", st.Store.Pos(), "make+copy", "stored bytes alias the caller's slice: "+render(st.Store.Val))
 			c.requireAt("C12.binary-form", "bytes kept only for version 3", st.Store, wEQ("version == 3", -3, t(1, `Version\.Value$`)))
 		}
